@@ -1050,6 +1050,12 @@ pub fn c17(r: &mut Rng, t: u32, n: usize) -> Vec<Value> {
 }
 
 /// operations whose outcome depends on the thread's rounding mode (C19) on tie operands
+/// C19 quantifies over rounding operations on Decimals; int.div_rounded(int, n > 18) is the open finding F3 of C04 / C20
+/// (no rounding mode involved) and is left to those checks.
+fn c19_in_scope(e: &Value) -> bool {
+    !(e["ev"] == "bin" && e["xt"] != "dec" && e["yt"] != "dec" && e["n"].as_u64().unwrap_or(0) > 18)
+}
+
 pub fn c19_ops(r: &mut Rng, t: u32, n: usize) -> Vec<Value> {
     let mut v = vec![];
     while v.len() < n {
@@ -1062,6 +1068,7 @@ pub fn c19_ops(r: &mut Rng, t: u32, n: usize) -> Vec<Value> {
                     3 => c05(r, t, 1),
                     _ => c11(r, t, 1),
                 };
+                e.retain(c19_in_scope);
                 v.append(&mut e);
             }
             0 | 1 => v.push(set_mode(r, t)),
@@ -1098,6 +1105,7 @@ pub fn c19_ops(r: &mut Rng, t: u32, n: usize) -> Vec<Value> {
                     3 => c05(r, t, 1),
                     _ => c11(r, t, 1),
                 };
+                e.retain(c19_in_scope);
                 v.append(&mut e);
             }
             9 => {
